@@ -833,6 +833,8 @@ def inline_new_helpers(F):
                 # look through one assignment / compound assignment / deref-free wrapper on the way to the inlined block
                 if isinstance(e, dict) and e.get("k") in ("Assign", "AssignOp") and isinstance(e.get("r"), dict):
                     holder, hk, e = e, "r", e["r"]
+                if isinstance(e, dict) and e.get("k") == "If" and isinstance(e.get("c"), dict) and e["c"].get("k") == "Let" and isinstance(e["c"].get("init"), dict):
+                    holder, hk, e = e["c"], "init", e["c"]["init"]       # `if let PAT = helper() { … }`: the scrutinee is evaluated first
                 if isinstance(e, dict) and e.get("k") == "Ret" and isinstance(e.get("e"), dict):
                     holder, hk, e = e, "e", e["e"]
                 while isinstance(e, dict) and e.get("k") == "Call" and len(e.get("args", [])) == 1 and (callee(e) or "").split("::")[-1] in ("Ok", "Err", "Some") \
@@ -841,6 +843,15 @@ def inline_new_helpers(F):
                     out.extend(blk_in.get("stmts") or [])
                     e["args"][0] = blk_in.get("expr")
                     break
+                # … and through the receiver of a chain of method calls (`helper().unwrap_or(d)`: the receiver is evaluated first)
+                probe, chain_holder, chain_key = e, holder, hk
+                while isinstance(probe, dict) and probe.get("k") == "MCall" and isinstance(probe.get("recv"), dict):
+                    chain_holder, chain_key, probe = probe, "recv", probe["recv"]
+                if probe is not e and isinstance(probe, dict) and probe.get("k") == "Block" and probe.get("_inlined") and probe.get("stmts") and probe.get("expr") is not None:
+                    out.extend(probe["stmts"])
+                    chain_holder[chain_key] = probe["expr"]
+                    out.append(st)
+                    continue
                 if isinstance(e, dict) and e.get("k") == "Block" and e.get("_inlined") and e.get("stmts"):
                     out.extend(e["stmts"])
                     if e.get("expr") is not None:
@@ -864,11 +875,11 @@ def inline_new_helpers(F):
         if visit(b["body"], 0):
             hoist(b["body"])
             b["_inlined_helpers"] = True
-            try:
-                normalise_loops(b)
-                simplify_lets(b)
-            except Exception:
-                pass
+            for fn_ in (normalise_loops, normalise_find_map, normalise_matches, simplify_lets):
+                try:
+                    fn_(b)
+                except Exception:
+                    pass
 
 
 def canonicalise_locals(bodies):
@@ -1076,6 +1087,53 @@ def normalise_matches(body):
             return {"k": "Call", "f": {"k": "Path", "def": "std::prelude::v1::" + name, "ctor_of": "std::result::Result::" + name, "dk": "Ctor(Variant, Fn)", "ty": ""}, "args": [arg], "ty": n.get("ty"), "sp": arg.get("sp")}
         return {"k": "If", "c": r["recv"], "t": blockify(ctor("Ok", v)), "e": blockify(ctor("Err", e)), "ty": n.get("ty"), "sp": n.get("sp")}
 
+    def then_parts(r):
+        """cond.then(|| V) / cond.then_some(V) -> (cond, V) or None"""
+        if not (isinstance(r, dict) and r.get("k") == "MCall" and r["name"] in ("then", "then_some") and "bool" in (r.get("def") or "") and len(r.get("args", [])) == 1):
+            return None
+        v = r["args"][0]
+        if r["name"] == "then":
+            if v.get("k") != "Closure" or v.get("params"):
+                return None
+            v = v["body"]
+        elif not _pure_expr(v):
+            return None
+        return r["recv"], v
+
+    def rewrite_then_unwrap(n):
+        # cond.then(|| V).unwrap_or(D)  ->  if cond { V } else { D }     (D pure: `unwrap_or` evaluates it eagerly)
+        if n.get("k") != "MCall" or n["name"] not in ("unwrap_or", "unwrap_or_else") or len(n.get("args", [])) != 1:
+            return None
+        tp = then_parts(n["recv"])
+        if tp is None:
+            return None
+        d = n["args"][0]
+        if n["name"] == "unwrap_or_else":
+            if d.get("k") != "Closure" or d.get("params"):
+                return None
+            d = d["body"]
+        elif not _pure_expr(d):
+            return None
+        return {"k": "If", "c": tp[0], "t": blockify(tp[1]), "e": blockify(d), "ty": n.get("ty"), "sp": n.get("sp")}
+
+    def rewrite_iflet_then(n):
+        # if let Some(x) = cond.then(|| V) { B } [else { E }]  ->  if cond { let x = V; B } [else { E }]
+        if n.get("k") != "If" or not isinstance(n.get("c"), dict) or n["c"].get("k") != "Let":
+            return None
+        pat = n["c"]["pat"]
+        if not ((pat.get("def") or "").split("::")[-1] == "Some" and pat.get("k") == "PTupleStruct" and len(pat.get("ps", [])) == 1):
+            return None
+        tp = then_parts(n["c"]["init"])
+        if tp is None:
+            return None
+        let = {"k": "LetS", "pat": pat["ps"][0], "init": tp[1], "sp": tp[1].get("sp")}
+        tb = n["t"] if n["t"].get("k") == "Block" else blockify(n["t"])
+        newt = dict(tb, stmts=[let] + list(tb.get("stmts") or []))
+        out = {"k": "If", "c": tp[0], "t": newt, "ty": n.get("ty"), "sp": n.get("sp")}
+        if "e" in n:
+            out["e"] = n["e"]
+        return out
+
     def visit(n):
         if isinstance(n, list):
             for i, x in enumerate(n):
@@ -1086,6 +1144,14 @@ def normalise_matches(body):
         for k, v in list(n.items()):
             if isinstance(v, (dict, list)):
                 n[k] = visit(v)
+        if n.get("k") == "MCall":
+            r = rewrite_then_unwrap(n)
+            if r is not None:
+                return r
+        if n.get("k") == "If":
+            r = rewrite_iflet_then(n)
+            if r is not None:
+                return r
         if n.get("k") == "Match":
             r = rewrite_try_match(n)
             if r is not None:
@@ -1389,7 +1455,16 @@ def simplify_lets(body):
         tb, eb = mk(r["t"]), mk(r["e"])
         if tb is None or eb is None:
             return None
-        return {"k": "If", "c": r["c"], "t": tb, "e": eb, "ty": "()", "sp": asg.get("sp")}
+        out_if = {"k": "If", "c": r["c"], "t": tb, "e": eb, "ty": "()", "sp": asg.get("sp")}
+        # `place = place` in the else branch (from `… .unwrap_or(place)`) does nothing
+        def self_assign(b_):
+            if b_.get("k") == "Block" and len(b_.get("stmts") or []) == 1 and b_.get("expr") is None:
+                a_ = b_["stmts"][0].get("e", {})
+                return a_.get("k") == "Assign" and _pure_expr(a_["l"]) and place(peel(a_["l"])) is not None and pp(peel(a_["l"])) == pp(peel(a_["r"]))
+            return False
+        if self_assign(eb):
+            del out_if["e"]
+        return out_if
     for n in walk(root):
         if n.get("k") == "Block" and n.get("stmts"):
             for st in n["stmts"]:
